@@ -648,11 +648,11 @@ func AccessPath(v ssa.Value) string {
 		}
 	case *ssa.FieldAddr:
 		if f := fieldVar(x); f != nil {
-			return AccessPath(x.X) + "." + f.Name()
+			return AccessPath(x.X) + "." + core.FieldName(f)
 		}
 	case *ssa.Field:
 		if f := FieldOfField(x); f != nil {
-			return AccessPath(x.X) + "." + f.Name()
+			return AccessPath(x.X) + "." + core.FieldName(f)
 		}
 	case *ssa.IndexAddr:
 		return AccessPath(x.X) + "[" + AccessPath(x.Index) + "]"
@@ -903,4 +903,114 @@ func MustNonNilField(f *ssa.Function, at ssa.Instruction, field *types.Var, base
 		}
 	}
 	return transfer(at.Block(), in[at.Block()], at)
+}
+
+// ResolveLocal follows a value through local variables: a load of a local
+// (Alloc) that has exactly one store yields the stored value, and a load of a
+// captured variable (FreeVar) is followed to the variable of the enclosing
+// function through the closure's bindings. Other values are returned unchanged.
+func ResolveLocal(v ssa.Value) ssa.Value {
+	for depth := 0; depth < 6; depth++ {
+		u, ok := v.(*ssa.UnOp)
+		if !ok || u.Op != token.MUL {
+			return v
+		}
+		var cell ssa.Value = u.X
+		if fv, ok := cell.(*ssa.FreeVar); ok {
+			fn := fv.Parent()
+			idx := -1
+			for i, x := range fn.FreeVars {
+				if x == fv {
+					idx = i
+				}
+			}
+			cell = nil
+			if p := fn.Parent(); p != nil && idx >= 0 {
+				for _, b := range p.Blocks {
+					for _, in := range b.Instrs {
+						if mc, ok := in.(*ssa.MakeClosure); ok && mc.Fn == ssa.Value(fn) && idx < len(mc.Bindings) {
+							cell = mc.Bindings[idx]
+						}
+					}
+				}
+			}
+			if cell == nil {
+				return v
+			}
+		}
+		al, ok := cell.(*ssa.Alloc)
+		if !ok {
+			return v
+		}
+		var stored ssa.Value
+		n := 0
+		for _, ref := range *al.Referrers() {
+			if st, ok := ref.(*ssa.Store); ok && st.Addr == ssa.Value(al) {
+				stored = st.Val
+				n++
+			}
+		}
+		if n != 1 {
+			return v
+		}
+		v = stored
+	}
+	return v
+}
+
+// IsNew reports whether f (or, for a function literal, its enclosing declared
+// function) did not exist on the reference tree.
+func IsNew(f *ssa.Function) bool {
+	for f != nil && f.Parent() != nil {
+		f = f.Parent()
+	}
+	if f == nil {
+		return false
+	}
+	obj, ok := f.Object().(*types.Func)
+	return ok && core.IsNewFunc(obj)
+}
+
+// Attributed returns the functions an effect inside f is attributed to: f
+// itself when it existed on the reference tree, otherwise (a new helper) the
+// reference-tree functions that reach it through static calls of new helpers.
+// ok is false when a new helper has no caller at all (e.g. a new exported API).
+func (q *Q) Attributed(f *ssa.Function) (names []string, ok bool) {
+	for f.Parent() != nil {
+		f = f.Parent()
+	}
+	if !IsNew(f) {
+		return []string{FuncName(f)}, true
+	}
+	seen := map[*ssa.Function]bool{f: true}
+	work := []*ssa.Function{f}
+	set := map[string]bool{}
+	ok = true
+	for len(work) > 0 {
+		g := work[len(work)-1]
+		work = work[:len(work)-1]
+		edges := q.Callers(g)
+		if len(edges) == 0 {
+			ok = false
+		}
+		for _, e := range edges {
+			c := e.Caller.Func
+			for c.Parent() != nil {
+				c = c.Parent()
+			}
+			if IsNew(c) {
+				if !seen[c] {
+					seen[c] = true
+					work = append(work, c)
+				}
+				continue
+			}
+			set[FuncName(c)] = true
+		}
+	}
+	for n := range set {
+		names = append(names, n)
+	}
+	sort.Strings(names)
+	return names, ok && len(names) > 0
 }
